@@ -33,6 +33,14 @@ FLAVOURS = {
         "among several; (b) colour arithmetic (palette bit order, rounding, component order); (c) option and argument handling (types, "
         "defaults, stdin/stdout, file opening modes); (d) details of the written file format (PNM header fields, PNG chunks). Keep it "
         "realistic and keep all 306 tests passing."),
+    7: ("This round, first read the tests under tests/ to learn what IS covered, then break something the property covers that neither a "
+        "test nor an obvious smoke run touches. Flavours: (a) convert() options that are not command-line flags (add_standard_prefix, "
+        "add_suffix, skip_procedure_headers, compiler_configs) or their interaction with the flags; (b) behaviour at exact boundary values "
+        "(0, 1, -1, 255/256, 32767/32768, the empty string, a one-character string, a one-line or empty program, a one-pixel or one-row "
+        "image, the first or last legal line number); (c) file and stream handling (what is written or left behind when something "
+        "fails, stdin/stdout, text vs binary mode, encodings, an output file that already exists, relative paths); (d) exit statuses, "
+        "refusal paths and which exception class comes out; (e) a change that is right for every input except one small value class. "
+        "Keep it realistic and keep all 306 tests passing."),
 }
 
 
